@@ -284,8 +284,7 @@ pub fn parse_query(to_parse: &str) -> Result<Goal, String> {
     // Clean up query.
     // Perhaps there is an unnecessary period at the end.
     let mut parse2 = to_parse.to_string();
-    let ch = parse2.chars().last().unwrap();
-    if ch == '.' { parse2.pop(); }
+    if parse2.chars().last() == Some('.') { parse2.pop(); }
 
     match parse_complex(&parse2) {
         Ok(q) => {
